@@ -771,3 +771,126 @@ Proof.
   { rewrite <- (accepted_by_ids ops outs), map_length. reflexivity. }
   rewrite L, accepted_by_ids. split; [exact H|]. rewrite H. apply ids_from_NoDup.
 Qed.
+
+(** ** Credit is re-issued exactly: as long as 2^60 is not reached, streams in the map + streams
+    the peer may still open = the configured limit (not only <=), i.e. every stream that leaves the
+    map frees exactly one slot, at once. *)
+Definition tight (N : Z) (m : inmap) : Prop := in_credit m + zlen (i_streams m) = N.
+
+Lemma in_get_or_open_tight : forall f N m id m' r a o M, 0 <= f <= 3 ->
+  InvIn f N m a o M -> on_lattice f id -> in_get_or_open m id = (m', r) -> tight N m -> tight N m'.
+Proof.
+  intros f N m id m' r a o M Hf I (j & Hid & Hj) E T.
+  pose proof I as (IN & IA & IO & Hao & HoM & HM & Hcred & Hs & Hk & Hpres).
+  unfold in_get_or_open in E.
+  destruct (Z.ltb_spec (i_max m) id) as [L|L]; [injection E as <- _; exact T|].
+  destruct (Z.ltb_spec id (i_nextOpen m)) as [L2|L2]; [injection E as <- _; exact T|].
+  injection E as Em _. subst m' id.
+  assert (HjM : j <= M - 1) by (destruct HM as [[HM1 HM2]|[HM1 HM2]]; lia).
+  assert (Hn : open_ids (i_nextOpen m) (f + 4 * j) = ids_from (f + 4 * o) (Z.to_nat (j - o + 1))).
+  { unfold open_ids, ids_from. rewrite IO. replace ((f + 4 * j - (f + 4 * o)) / 4 + 1) with (j - o + 1) by lia. reflexivity. }
+  rewrite Hn. fold (put_all (ids_from (f + 4 * o) (Z.to_nat (j - o + 1))) (i_streams m)).
+  assert (B : forall k, In k (keys (i_streams m)) -> k < f + 4 * o).
+  { intros k Hin. destruct (Hk _ Hin) as (j0 & -> & Hj0). lia. }
+  destruct (put_all_spec (f + 4 * o) (Z.to_nat (j - o + 1)) (i_streams m) Hs B) as (_ & Len & _).
+  rewrite Z2Nat.id in Len by lia.
+  unfold tight, in_credit, in_adv, in_opened in *. simp_in. rewrite Len, IO in *.
+  rewrite (Z.quot_div_nonneg (f + 4 * j + 4)) by lia. rewrite (Z.quot_div_nonneg (f + 4 * o)) in T by lia. lia.
+Qed.
+
+Lemma in_delete_inner_tight : forall f N m id m' ok fr a o M, 0 <= f <= 3 ->
+  InvIn f N m a o M -> in_delete_inner m id = (m', ok, fr) ->
+  o + N <= SM_MaxStreamCount -> tight N m -> tight N m'.
+Proof.
+  intros f N m id m' ok fr a o M Hf I E Hb T.
+  destruct (in_adv_inv _ _ _ _ _ _ Hf I) as [A O].
+  destruct I as (IN & IA & IO & Hao & HoM & HM & Hcred & Hs & Hk & Hpres).
+  unfold in_delete_inner in E.
+  destruct (lookup id (i_streams m)) as [sd|] eqn:L; [|inj3 E; subst m'; exact T].
+  destruct (Z.leb_spec (i_nextAccept m) id) as [C|C].
+  - destruct sd; inj3 E; subst m'; [exact T|].
+    unfold tight, in_credit, in_adv, in_opened, in_set_streams in *. simp_in.
+    rewrite (zlen_put_old _ _ _ _ Hs L). exact T.
+  - assert (Len : zlen (del id (i_streams m)) = zlen (i_streams m) - 1) by (eapply zlen_del; eauto).
+    unfold tight, in_credit in T. rewrite A, O in T.
+    pose proof (zlen_nonneg _ (del id (i_streams m))).
+    destruct (Z.ltb_spec (zlen (del id (i_streams m))) (i_maxNum m)) as [C2|C2]; [|lia].
+    destruct (Z.leb_spec (i_nextOpen m + 4 * (i_maxNum m - zlen (del id (i_streams m)) - 1)) SM_MaxStreamID) as [C3|C3].
+    + inj3 E; subst m'. unfold tight, in_credit, in_adv, in_opened, id_stream_num. simp_in. rewrite IO.
+      replace (f + 4 * o + 4 * (i_maxNum m - zlen (del id (i_streams m)) - 1))
+        with (f + 4 * (o + i_maxNum m - zlen (del id (i_streams m)) - 1)) by lia.
+      destruct (Z.ltb_spec (f + 4 * (o + i_maxNum m - zlen (del id (i_streams m)) - 1)) 0); [lia|].
+      rewrite !Z.quot_div_nonneg by lia. lia.
+    + exfalso. unfold SM_MaxStreamID in C3. unfold SM_MaxStreamCount in Hb. lia.
+Qed.
+
+Lemma istep_tight : forall f N m op m' r fr a o M a' o' M', 0 <= f <= 3 ->
+  InvIn f N m a o M -> iop_ok f op -> istep m op = (m', r, fr) -> InvIn f N m' a' o' M' ->
+  o' + N <= SM_MaxStreamCount -> tight N m -> tight N m'.
+Proof.
+  intros f N m op m' r fr a o M a' o' M' Hf I Hok E I' Hb T.
+  assert (Ho : o <= o').
+  { destruct (istep_inv _ _ _ _ _ _ _ _ _ _ Hf I Hok E) as (a1 & o1 & M1 & I1 & _ & Ho1 & _).
+    destruct (in_adv_inv _ _ _ _ _ _ Hf I1) as [_ O1]. destruct (in_adv_inv _ _ _ _ _ _ Hf I') as [_ O']. lia. }
+  destruct op as [id|id|c|c|e]; cbn [istep iop_ok] in *.
+  - destruct (in_get_or_open m id) as [m1 r1] eqn:G. inj3 E; subst m'. exact (in_get_or_open_tight _ _ _ _ _ _ _ _ _ Hf I Hok G T).
+  - unfold in_delete in E. destruct (in_delete_inner m id) as [[m1 ok] fr1] eqn:D. inj3 E; subst m'.
+    apply (in_delete_inner_tight _ _ _ _ _ _ _ _ _ _ Hf I D); [lia|exact T].
+  - unfold in_accept in E. destruct (in_accept_core m) as [[m1 r1] fr1] eqn:C. inj3 E. subst m'.
+    assert (T1 : tight N m1).
+    { unfold in_accept_core in C. destruct (i_closed m); [inj3 C; subst m1; exact T|].
+      destruct (lookup (i_nextAccept m) (i_streams m)) as [sd|] eqn:L; [|inj3 C; subst m1; exact T].
+      destruct sd; [|inj3 C; subst m1; exact T].
+      set (m0 := mkIn _ _ _ _ _ _ _ _) in C.
+      destruct (in_delete_inner m0 (i_nextAccept m)) as [[m2 ok] fr2] eqn:D. inj3 C. subst m1.
+      pose proof I as (IN & IA & IO & Hao & HoM & HM & Hcred & Hs & Hk & Hpres).
+      assert (Hlt : a < o).
+      { apply lookup_some_keys in L. destruct (Hk _ L) as (j & Ej & Hj). lia. }
+      assert (I0 : InvIn f N m0 (a + 1) o M).
+      { unfold InvIn, m0; simp_in. repeat split; auto; try lia. intros j Hj. apply Hpres. lia. }
+      apply (in_delete_inner_tight _ _ _ _ _ _ _ _ _ _ Hf I0 D); [lia|exact T]. }
+    exact T1.
+  - unfold in_accept_cancel in E. destruct (zmem c (i_parked m)); inj3 E; subst m'; exact T.
+  - inj3 E; subst m'. exact T.
+Qed.
+
+Lemma irun_tight : forall f N ops m m' outs a o M, 0 <= f <= 3 ->
+  InvIn f N m a o M -> Forall (iop_ok f) ops -> irun m ops = (m', outs) ->
+  in_opened m' + N <= SM_MaxStreamCount -> tight N m -> tight N m'.
+Proof.
+  intros f N ops. induction ops as [|op ops IH]; intros m m' outs a o M Hf I Hok E Hb T; cbn [irun] in E.
+  - injection E as <- _. exact T.
+  - destruct (istep m op) as [[m1 r] fr] eqn:S1.
+    destruct (irun m1 ops) as [m2 outs2] eqn:R. injection E as <- _.
+    inversion Hok as [|? ? Hop Hops]; subst.
+    destruct (istep_inv _ _ _ _ _ _ _ _ _ _ Hf I Hop S1) as (a1 & o1 & M1 & I1 & _).
+    destruct (irun_inv _ _ _ _ _ _ _ _ _ Hf I1 Hops R) as (a2 & o2 & M2 & I2 & _ & Ho2 & _).
+    destruct (in_adv_inv _ _ _ _ _ _ Hf I2) as [_ O2].
+    apply (IH _ _ _ _ _ _ Hf I1 Hops R Hb).
+    apply (istep_tight _ _ _ _ _ _ _ _ _ _ _ _ _ Hf I Hop S1 I1); [lia|exact T].
+Qed.
+
+Lemma init_in_adv : forall uni client N, 0 <= N ->
+  in_adv (init_in uni client N) = N /\ in_opened (init_in uni client N) = 0.
+Proof.
+  intros uni client N HN. pose proof (first_incoming_range uni client) as Hf. split.
+  - unfold in_adv, init_in; cbn [i_max]. unfold num_to_id. destruct (Z.eqb_spec N 0); [subst; reflexivity|].
+    rewrite <- (first_incoming_lit uni client).
+    destruct (Z.ltb_spec (first_incoming uni client + 4 * (N - 1)) 0); [lia|].
+    unfold id_stream_num. rewrite Z.quot_div_nonneg by lia. lia.
+  - unfold in_opened, init_in; cbn [i_nextOpen]. rewrite Z.quot_div_nonneg by lia. lia.
+Qed.
+
+Theorem in_credit_exact : forall uni client N ops m outs, 0 <= N ->
+  Forall (iop_ok (first_incoming uni client)) ops ->
+  irun (init_in uni client N) ops = (m, outs) ->
+  in_opened m + N <= SM_MaxStreamCount ->
+  in_credit m + zlen (i_streams m) = N.
+Proof.
+  intros uni client N ops m outs HN Hok E Hb.
+  pose proof (first_incoming_range uni client) as Hf.
+  destruct (inv_in_init uni client N HN) as (a0 & o0 & M0 & I0).
+  apply (irun_tight _ _ _ _ _ _ _ _ _ Hf I0 Hok E Hb).
+  destruct (init_in_adv uni client N HN) as [A O]. unfold tight, in_credit. rewrite A, O.
+  unfold init_in, zlen; cbn [i_streams length]. lia.
+Qed.
